@@ -366,6 +366,18 @@ def run(res):
         res.violation("Lean driver does not build", {"log": out[-3000:]}, found_input=False, key="driver")
         return
 
+    if ok and res.tier == "thorough":
+        # independent re-check of the compiled proofs: kernel replay of the .olean files (incl. the helper lemma modules)
+        replay_mods = MODS + ["AsmjitVerif.Lemmas.OffsetGeneric", "AsmjitVerif.Lemmas.OffsetGeneric64", "AsmjitVerif.Lemmas.OffsetArm32",
+                              "AsmjitVerif.Lemmas.A64Logical", "AsmjitVerif.Lemmas.Bytes"]
+        with vlib.Lock("lake"):
+            for mod in replay_mods:
+                p = vlib.sh(["lake", "env", "leanchecker", mod], cwd=vlib.LEAN, timeout=3600)
+                if p.returncode != 0:
+                    broken.append("leanchecker rejects %s: %s" % (mod, (p.stdout + p.stderr)[-400:]))
+        res.coverage["leanchecker"] = "replayed %s" % ", ".join(replay_mods) if not any("leanchecker" in b for b in broken) else "FAILED"
+        res.coverage["checker_cmd"] += " && lake env leanchecker " + " ".join(replay_mods)
+
     # -- L2b correspondence + L3 monitor -----------------------------------------------------------
     h = vlib.build_harness("c17")
     proved = [("signed", s, 0, 8 * s, 0) for s in (1, 2, 4, 8)] + [("unsigned", s, 0, 8 * s, 0) for s in (1, 2, 4, 8)] + \
